@@ -318,6 +318,14 @@ def plate_recipe(m, dim):
     return r
 
 
+def _history_arrays(obj):
+    """private history field (solver History) as {key: (Ne,nPg) array}: the tree stores one array; a
+    per-element-group dict (proposed fix of C17-g) is read the same way."""
+    if isinstance(obj, dict):
+        return {str(k): np.array(v, float) for k, v in obj.items()}
+    return {"all": np.array(obj, float)}
+
+
 def check_history(case, rec):
     dim = int(case["dim"])
     mesh = gm.build(plate_recipe(case["mesh"], dim))
@@ -362,7 +370,7 @@ def check_history(case, rec):
         simu.Save_Iter()
         d = np.array(simu.damage, float)
         psiP = np.array(simu.Result("psiP", nodeValues=False), float).ravel()
-        H = np.array(getattr(simu, hist_attr), float)
+        H = _history_arrays(getattr(simu, hist_attr))
         where = f"step {k} amp={a:+.3f} {split}/{regu}/{solver} mesh={types} dim={dim}"
         # drive0: the driving energy that entered the first damage solve of this step (psi+ of the previous
         # saved state, or the history field) is identically zero
@@ -385,13 +393,18 @@ def check_history(case, rec):
                 sc = max(float(np.max(np.abs(pp))), 1e-300)
                 rec.require((psiP - pp).min() >= -1e-12 * sc, "H_result_monotone",
                             f"Result('psiP') decreased by {(pp - psiP).max():.3e} (max {sc:.3e}) at " + where, **sig)
-                if not multi:
-                    rec.require(H.shape == Hp.shape or Hp.size == 0, "H_private_monotone",
-                                f"history array changed shape {Hp.shape}->{H.shape} at " + where, **sig)
-                if H.shape == Hp.shape and H.size:
-                    sc = max(float(np.max(np.abs(Hp))), 1e-300)
-                    rec.require((H - Hp).min() >= -1e-12 * sc, "H_private_monotone",
-                                f"history array decreased by {(Hp - H).max():.3e} at " + where, **sig)
+                for key, Hk in H.items():
+                    Hpk = Hp.get(key)
+                    if Hpk is None or Hpk.size == 0:
+                        continue
+                    if not rec.require(Hk.shape == Hpk.shape, "H_private_monotone",
+                                       f"history array {key} changed shape {Hpk.shape}->{Hk.shape} at " + where, **sig):
+                        continue
+                    sc = max(float(np.max(np.abs(Hpk))), 1e-300)
+                    rec.require((Hk - Hpk).min() >= -1e-12 * sc, "H_private_monotone",
+                                f"history array {key} decreased by {(Hpk - Hk).max():.3e} at " + where, **sig)
+                rec.require(all(k in H for k, v in Hp.items() if v.size), "H_private_monotone",
+                            "a stored history array disappeared at " + where, **sig)
             else:
                 rec.require((d - dp).min() >= -1e-9, "damage_monotone",
                             f"nodal damage decreased by {(dp - d).max():.3e} (max d {dp.max():.3f}) at " + where,
